@@ -357,12 +357,11 @@ def prepare_system(
     power_system.create_sections()
 
     # Set up time increments based on defined period
-    increments = int((stop_time - start_time) / time_step)
-    sim_duration = increments * time_step.get_unit_quantity(time_unit)
-    time_array = np.arange(
-        start=time_step.get_unit_quantity(time_unit),
-        stop=sim_duration,
-        step=time_step.get_unit_quantity(time_unit),
+    # Rounding guards against floating-point error in the unit conversions,
+    # so that a period of exactly n time steps gives n increments
+    increments = int(round((stop_time - start_time) / time_step, 6))
+    time_array = time_step.get_unit_quantity(time_unit) * np.arange(
+        1, increments + 1
     )
     time_array_indices = np.arange(increments)
 
